@@ -26,7 +26,8 @@ class C01:
             "instance and cycle strictly increasing node indices; child graph evaluated inside its parent node's bracket at the parent's time; every "
             "user-code evaluation after all same-cycle evaluations of the producers it reads in the program's own dependency relation; values equal "
             "the reference interpreter (when no depth>=2 nesting is present). non-trivial = at least one cycle in which >= 2 dependent nodes ran; "
-            "distinct = distinct (program shape, statement order, cycle times)")
+            "distinct = distinct (program shape, statement order, cycle times)"
+            " Round 3: 8% of the runs are mesh_ graphs (instances reading each other through mesh_ref, paused and resumed within a cycle): user code of every instance node at most once per cycle, producer before consumer.")
     assumptions = ["the program's dependency relation is computed by the driver from the scenario, not from the engine's edge list"]
 
     def gen_mesh(self, rng):
